@@ -19,19 +19,18 @@ MUTANTS = [
     ("C05", "src/name.rs", "match self.bindings.iter().rposition(|n| n.level <= current_level) {", "match self.bindings.iter().rposition(|n| n.level < current_level) {", "namespace pop drops one level too many"),
     ("C08", "src/reader/state.rs", "&buf[8 + start..],", "&buf[8 + start + 1..],", "DOCTYPE content loses its first byte"),
     ("C10", "src/escape.rs", "        from_str_radix(hex, 16)?\n", "        from_str_radix(hex, 16)? & 0x1F_FFFF\n", "hex character references above 0x1FFFFF wrap around"),
-    ("C11", "src/events/attributes.rs", "            Some((e, _)) => Some(e),\n            // Input: `    key  =  value`", "            Some((e, _)) => Some(e + 1),\n            // Input: `    key  =  value`", "recovery after an unquoted value resumes one byte late"),
+    ("C11", "src/events/attributes.rs", "        self.state = State::Next(value.end + 1); // +1 for `'`", "        self.state = State::Next(value.end); // +1 for `'`", "iteration resumes ON the closing apostrophe of a single-quoted value"),
     ("C12", "src/reader/mod.rs", "                Err(e) => {\n                    $self.config_mut().trim_text_start = trim;\n                    return Err(e);", "                Err(e) => {\n                    return Err(e);", "trim_text_start not restored when read_to_end fails"),
     ("C16", "src/reader/state.rs", "if let Some(pos_end_name) = content.iter().rposition(|&b| !is_whitespace(b)) {\n                &content[..pos_end_name + 1]", "if let Some(pos_end_name) = content.iter().rposition(|&b| !is_whitespace(b)) {\n                &content[..pos_end_name]", "end-name trimming removes one byte too many"),
     ("C17", "src/reader/mod.rs", "            Self::Explicit(_) | Self::XmlDetected(_) => false,", "            Self::XmlDetected(_) => false,\n            Self::Explicit(_) => true,", "a declaration overrides an explicitly fixed encoding"),
     ("C18", "src/reader/buffered_reader.rs", "                    Err(ref e) if e.kind() == io::ErrorKind::Interrupted => continue,\n                    Err(e) => {\n                        *position += read;\n                        return Err(Error::Io(e.into()));\n                    }\n                };\n\n                if let Some(i) = parser.feed(available) {", "                    Err(e) => {\n                        *position += read;\n                        return Err(Error::Io(e.into()));\n                    }\n                };\n\n                if let Some(i) = parser.feed(available) {", "read_with does not retry on Interrupted"),
     ("C19", "src/writer.rs", "            Event::CData(e) => {\n                next_should_line_break = false;", "            Event::CData(e) => {", "indentation inserted after CDATA"),
     ("C09", "src/events/mod.rs", "        bytes.splice(..self.name_len, name.iter().cloned());\n        self.name_len = name.len();", "        bytes.splice(..self.name_len, name.iter().cloned());", "set_name leaves name_len stale"),
-    ("C15", "src/de/mod.rs", "            Event::End(e) => (PayloadEvent::End(e), true),", "            Event::End(e) => (PayloadEvent::End(e), false),", "text after an end tag keeps its leading whitespace"),
+    ("C15", "src/de/mod.rs", "            _ => return None,\n        };\n        self.trim_start = trim_next_event;", "            _ => {\n                self.trim_start = true;\n                return None;\n            }\n        };\n        self.trim_start = trim_next_event;", "text after a comment / PI inside a text run loses its leading whitespace"),
     ("C20", "src/de/mod.rs", "            if self.write.len() >= max.get() {", "            if self.write.len() > max.get() {", "event buffer limit off by one"),
     ("C13", "src/se/mod.rs", "            None => Err(SeError::Unsupported(\n                \"an XML name cannot be empty\".into(),\n            )),", "            None => Ok(XmlName(name)),", "empty XML names accepted again"),
     ("C06", "src/se/content.rs", "new_seq_element_serializer(!self.last.is_text())", "new_seq_element_serializer(self.last.is_text())", "allow_primitive inverted again"),
     ("C07", "src/de/mod.rs", "                PayloadEvent::Text(mut e) => {\n                    self.skip_doctypes()?;\n                    if self.current_event_is_last_text() && e.inplace_trim_end() {", "                PayloadEvent::Text(mut e) => {\n                    if self.current_event_is_last_text() && e.inplace_trim_end() {", "DOCTYPE splits a text run again"),
-    ("C14", "src/de/mod.rs", "                    self.start_trimmer.trim(event)", "                    self.start_trimmer.trim(event)", "(placeholder, skipped)"),
 ]
 
 
